@@ -19,8 +19,10 @@ package main
 import (
 	"bytes"
 	"fmt"
+	"os"
 	"sort"
 	"strings"
+	"time"
 
 	"github.com/plgd-dev/go-coap/v3/message"
 	"github.com/plgd-dev/go-coap/v3/message/codes"
@@ -82,7 +84,31 @@ type c20bCall struct {
 	refused bool
 }
 
-func runC20BHistory(szx int, getMID int32, evs []c20bEv) (string, bool) {
+// c20bSync is memConn.sync with a caller-chosen patience: a non-confirmable barrier request that the handler
+// recognises; everything injected before it has been dispatched (and its reply written) when it arrives.
+func c20bSync(m *memConn, patience time.Duration) bool {
+	own := int(uint16(m.cc.VerifMsgID()))
+	mid := (own + 0x4000 + m.barSeq) & 0xffff
+	for m.avoidMID[mid] {
+		m.barSeq++
+		mid = (own + 0x4000 + m.barSeq) & 0xffff
+	}
+	m.barSeq++
+	if m.inject(encodeWire(1, 1, mid, m.barTok, nil, nil)) != 0 {
+		return false
+	}
+	select {
+	case <-m.barrier:
+		return true
+	case <-time.After(patience):
+		return false
+	}
+}
+
+// runC20BHistory runs one history on a fresh connection. patience bounds the wait for each barrier; a
+// barrier that does not arrive makes the run "not ok" (the caller repeats it with a much longer patience:
+// a slow machine must not look like a dropped response).
+func runC20BHistory(szx int, getMID int32, evs []c20bEv, patience time.Duration) (string, bool) {
 	mc := newMemConn(memConnOpts{getMID: getMID, queueSize: 16, maxRetransmit: 4, blockwise: true, blockwiseSZX: blockwise.SZX(szx)})
 	defer mc.close()
 	own0 := mc.cc.VerifMsgID()
@@ -126,7 +152,7 @@ func runC20BHistory(szx int, getMID int32, evs []c20bEv) (string, bool) {
 		if mc.inject(encodeWire(e.Typ, e.Code, e.MID, e.Tok, e.Opts, payload)) != 0 {
 			ok = false
 		}
-		if !mc.sync() {
+		if !c20bSync(mc, patience) {
 			ok = false
 		}
 		mc.takeLog()
@@ -328,7 +354,11 @@ func (g *c20bGen) download(typ int, tok []byte, noresp []byte, follow int, cszx 
 			v = c20bNoResp[g.rng.Intn(len(c20bNoResp))]
 		}
 		oo := append(message.Options{}, base...)
-		oo = append(oo, c20bBlockOpt(message.Block2, eff, k, false))
+		fszx := eff
+		if g.rng.Chance(8) {
+			fszx = eff + 1 // a following request that asks for larger blocks than the server uses (not judged, modelled)
+		}
+		oo = append(oo, c20bBlockOpt(message.Block2, fszx, k, false))
 		e := first
 		e.MID = g.nextMID()
 		e.Opts = g.withNoResp(oo, v)
@@ -359,16 +389,24 @@ func runC20B(a runArgs) error {
 	e := NewEmitter("C20B", "NoResp.BwRun")
 	e.Preamble = "From GoCoap Require Import Base.Bytes Dedup.Model Dedup.Spec NoResp.BwModel."
 	e.ShardSize = 150
-	e.Rule = "histories of request datagrams on a fresh udp/client.Conn (in-memory session) with the real net/blockwise layer (configured SZX 16/32/64): Block1 uploads of 2..6 blocks (PUT/POST, CON/NON) carrying a No-Response option (none, empty, one byte; on all / only the last / only the first block) with a handler response of a suppressed or passed class (no / small / block-wise body), duplicated and out-of-order blocks, a second token interleaved; Block2 downloads (GET/DELETE with No-Response, following block requests with the same / another / no option); plain requests incl. single-block Block1; random mixtures. Distinct = distinct history; non-trivial = a handler call for a request that carries a No-Response option happened after at least one block-wise step (Continue or Block2 block) on the same token."
+	e.Rule = "histories of request datagrams on a fresh udp/client.Conn (in-memory session) with the real net/blockwise layer (configured SZX 16..128, up to 1024 in the thorough tier): Block1 uploads of 2..4 (thorough: 2..8) blocks (PUT/POST, CON/NON) carrying a No-Response option (none, empty, one byte; on all / only the last / only the first block) with a handler response of a suppressed or passed class (no / small / block-wise body), duplicated and out-of-order blocks, a second token interleaved; Block2 downloads (GET/DELETE with No-Response, following block requests with the same / another / no option); plain requests incl. single-block Block1; random mixtures. Distinct = distinct history; non-trivial = a handler call for a request that carries a No-Response option happened after at least one block-wise step (Continue or Block2 block) on the same token."
 	rng := NewRng(a.seed ^ 0xc20b)
 
+	// HX_C20B_PATIENCE_US (testing only): patience of the first attempt in microseconds, to exercise the slow path
+	firstPatience := 5 * time.Second
+	if v := os.Getenv("HX_C20B_PATIENCE_US"); v != "" {
+		var us int
+		fmt.Sscanf(v, "%d", &us)
+		firstPatience = time.Duration(us) * time.Microsecond
+	}
 	emit := func(szx int, getMID int32, evs []c20bEv, fam string) {
-		txt, ok := runC20BHistory(szx, getMID, evs)
+		txt, ok := runC20BHistory(szx, getMID, evs, firstPatience)
 		if !ok {
-			txt, ok = runC20BHistory(szx, getMID, evs)
+			e.Hist["slow_rerun"]++
+			txt, ok = runC20BHistory(szx, getMID, evs, 120*time.Second)
 		}
 		if !ok {
-			e.Hist["barrier_timeout"]++
+			e.Hist["barrier_timeout"]++ // the connection stopped dispatching: reported as observed
 		}
 		buckets := []string{"family=" + fam, fmt.Sprintf("szx=%d", szx), fmt.Sprintf("len%02d", len(evs))}
 		nontriv := false
@@ -421,14 +459,17 @@ func runC20B(a runArgs) error {
 
 	newGen := func() (*c20bGen, int32) {
 		getMID := int32([]int{0x1000, 0, 0x7fff, 0xffff, 0x8123}[rng.Intn(5)])
-		g := &c20bGen{rng: rng, szx: []int{0, 0, 0, 1, 2}[rng.Intn(5)], tier: a.tier, mid: []int{0, 100, 65530, 4660, 30000}[rng.Intn(5)]}
+		g := &c20bGen{rng: rng, szx: []int{0, 0, 0, 0, 1, 1, 2, 3}[rng.Intn(8)], tier: a.tier, mid: []int{0, 100, 65530, 4660, 30000}[rng.Intn(5)]}
+		if a.tier == "thorough" && rng.Chance(4) {
+			g.szx = 4 + rng.Intn(3) // 256..1024-byte blocks
+		}
 		return g, getMID
 	}
 	maxBlocks := 4
-	nU, nD, nP, nR := 260, 140, 60, 120
+	nU, nD, nP, nR := 520, 280, 100, 260
 	if a.tier == "thorough" {
-		maxBlocks = 6
-		nU, nD, nP, nR = 2600, 1400, 500, 1500
+		maxBlocks = 8
+		nU, nD, nP, nR = 8000, 4000, 1000, 5000
 	}
 
 	// canonical witnesses: every (type, No-Response value from {none,2,8,16,26}, response class) for a 2-block and a 3-block upload
